@@ -197,7 +197,17 @@ type Result struct {
 	Excluded   map[string]int64       `json:"excluded"`
 	Violations []Violation            `json:"violations"`
 	Complete   bool                   `json:"complete"`
+	Survey     map[string]*SurveyEntry `json:"survey,omitempty"`
 	WallS      float64                `json:"wall_s"`
+}
+
+// SurveyEntry is one signature seen in survey mode (triage aid: all failures
+// are collected instead of stopping at the first).
+type SurveyEntry struct {
+	Count int64           `json:"count"`
+	Msg   string          `json:"msg"`
+	Check string          `json:"check"`
+	Case  json.RawMessage `json:"case"`
 }
 
 // Session is one property run in one worker process.
@@ -216,6 +226,7 @@ type Session struct {
 	journal  *os.File
 	outPath  string
 	scale    float64
+	survey   bool
 }
 
 func envInt(name string, def int) int {
@@ -269,13 +280,16 @@ func Begin(t *testing.T, prop string) *Session {
 		}
 	}
 	s.outPath = os.Getenv("VERIF_OUT")
+	s.survey = os.Getenv("VERIF_SURVEY") != ""
 	s.res = &Result{Property: prop, Shard: s.Shard, Seed: seed, Tier: s.Tier,
 		Checks: map[string]*checkStats{}, Suppressed: map[string]int64{}, Excluded: map[string]int64{}}
 	s.hashes = map[uint64]struct{}{}
 	s.known = map[string]bool{}
 	for _, e := range LoadKnown(s.Root) {
 		if e.Property == prop && e.Open {
-			s.known[e.Sig] = true
+			for _, sg := range e.Sigs {
+				s.known[sg] = true
+			}
 		}
 	}
 	if jp := os.Getenv("VERIF_JOURNAL"); jp != "" {
@@ -420,6 +434,22 @@ func eval[C any](s *Session, c *Check[C], cs C, count bool, enumerated bool) eva
 	}
 	if len(unlisted) > 0 && raw == nil {
 		raw, _ = json.Marshal(cs)
+	}
+	if s.survey && len(unlisted) > 0 {
+		if s.res.Survey == nil {
+			s.res.Survey = map[string]*SurveyEntry{}
+		}
+		for _, f := range unlisted {
+			e := s.res.Survey[f.Sig]
+			if e == nil {
+				e = &SurveyEntry{Msg: f.Msg, Check: c.Name, Case: json.RawMessage(raw)}
+				s.res.Survey[f.Sig] = e
+			} else if len(raw) < len(e.Case) {
+				e.Msg, e.Case = f.Msg, json.RawMessage(raw)
+			}
+			e.Count++
+		}
+		unlisted = nil
 	}
 	return evalOut{unlisted: unlisted, raw: raw}
 }
